@@ -256,6 +256,15 @@ func renderObj(kvs []kv) string {
 	return "{" + strings.Join(parts, ",") + "}"
 }
 
+func indexOf(l []string, x string) int {
+	for i, y := range l {
+		if y == x {
+			return i
+		}
+	}
+	return 0
+}
+
 func jstr(s string) string { b, _ := json.Marshal(s); return string(b) }
 
 func genJSONValue(r *rand.Rand, depth int) string {
@@ -682,6 +691,43 @@ func run(c *core.Ctx) {
 	// JSON with a type error whose text contains legacy tokens (handed to the legacy parser)
 	for i, n := 0, c.N(60, 2000); i < n; i++ {
 		emitDecode("json-type-error-legacy", core.Pick(r, `["x"," `, `{"ifVer":"x","k":" `, `[1, `, `" `)+genLegacyText(r)+core.Pick(r, ` "]`, ` "}`, ` ]`, ` "`))
+	}
+
+	// polyglots: a JSON attribute object that decodes but fails the required-field check (a field missing or
+	// empty), carrying blank-delimited legacy tokens inside a string value (top level, in exts, nested)
+	for i, n := 0, c.N(120, 3000); i < n; i++ {
+		kvs := baseKVs(r)
+		req := []string{"username", "hostname", "sshClientVersion"}
+		victim := req[r.Intn(len(req))]
+		for j := 0; j < len(kvs); j++ {
+			if kvs[j].k == victim {
+				if r.Intn(2) == 0 {
+					kvs = append(kvs[:j:j], kvs[j+1:]...)
+				} else {
+					kvs[j].v = `""`
+				}
+				break
+			}
+		}
+		tok := " " + genLegacyText(r) + " "
+		if r.Intn(2) == 0 {
+			tok = " req=" + genClean(r) + "@" + genClean(r) + " SSHClientVersion=8.1 HardKey=true "
+		}
+		switch r.Intn(4) {
+		case 0:
+			kvs = append(kvs, kv{"exts", `{"note":` + jstr(tok) + `}`})
+		case 1:
+			kvs = append(kvs, kv{"exts", `{"a":{"b":[` + jstr(tok) + `]}}`})
+		case 2:
+			kvs = append(kvs, kv{core.GenText(r), jstr(tok)})
+		default:
+			other := req[(r.Intn(2)+1+indexOf(req, victim))%3]
+			kvs = append(kvs, kv{other, jstr(tok)})
+		}
+		if r.Intn(2) == 0 {
+			r.Shuffle(len(kvs), func(a, b int) { kvs[a], kvs[b] = kvs[b], kvs[a] })
+		}
+		emitDecode("json-incomplete-with-legacy-tokens", renderObj(kvs))
 	}
 
 	// (iv) legacy texts
